@@ -138,3 +138,8 @@ theorem C14_verifiers_are_translated (names : List Name) (dialed : Name) (p : Ke
       cases spkiAlg <;> cases sigAlg <;> simp <;> (try (by_cases h1 : spki = p <;> by_cases h2 : signer = spki <;> simp [h1, h2]))
 
 end Anemo
+
+namespace Anemo
+/-- **Names are wired as the model says** (word for word, checked on this run): `build` makes one certificate per name (primary first, then the alternate), the verifier accepts exactly those names, the server resolves its certificate by SNI among exactly those names (no fallback), the client configurations present the PRIMARY certificate, and `connect_with_client_config` dials with the primary name. -/
+theorem C14_names_are_pinned : Gen.tlsConfigShapeChecked = true ∧ Gen.endpointShapeChecked = true := ⟨rfl, rfl⟩
+end Anemo
